@@ -439,6 +439,12 @@ V("f-b2c-f-nested-in-v", "fire", ["C15", "C04"], TS, "            if f:\n       
   note="campaign 6: the falsification CNFs are only built when the verification CNFs are (lex_inf and system-w switch v off)")
 V("f-w-result-after-loop", "fire", ["C03"], SW, "            if result == False:\n                return False\n        return True\n", "        if result == False:\n            return False\n        return True\n",
   note="campaign 6: only the tie handled last decides")
+V("f-allranks-skip-known", "fire", ["C16", "C17"], PO, "        return {w: self.rank_world(w) for w in self.ranks.keys()}\n",
+  "        return {w: self.rank_world(w) for w in self.ranks.keys() if self.ranks[w] is None}\n", note="'all at once' after some worlds were ranked lazily: their entries are missing")
+V("f-allranks-stored", "fire", ["C16", "C17"], PO, "        return {w: self.rank_world(w) for w in self.ranks.keys()}\n",
+  "        return {w: self.ranks[w] for w in self.ranks.keys()}\n", note="returns the cache (None for unranked worlds) instead of computing")
+V("s-allranks-loop", "silent", ["C16", "C17", "C18"], PO, "        return {w: self.rank_world(w) for w in self.ranks.keys()}\n",
+  "        out = {}\n        for w in list(self.ranks):\n            out[w] = self.rank_world(w)\n        return out\n", note="loop form")
 V("f-tpo2ranks-return-in-loop", "fire", ["C18"], PO, "            ranks[world] = rank_function(layer_num)\n    return ranks\n", "            ranks[world] = rank_function(layer_num)\n        return ranks\n")
 V("s-avg-guard-by-count", "silent", ["C14", "C06", "C13"], INF, "                \"average_query_time_ms\": total_inference_time / len(queries)\n                if queries\n                else 0,\n",
   "                \"average_query_time_ms\": total_inference_time / len(queries)\n                if len(queries)\n                else 0,\n", note="the division guarded by the count instead of the mapping")
